@@ -21,7 +21,8 @@ from vlib.core import Shard, Found
 PROPERTY = 'C16'
 LEVEL = 'exploration'
 RULE = ('scenarios = every multiset of 1..3 operations from {prepare, call A, call B, call C} started together, each also '
-        'preceded by a completed prepare(), and each followed by close() + a second concurrent round; schedules enumerated '
+        'preceded by a completed prepare(), and each followed by close() + a second concurrent round; close() racing with '
+        'prepare() followed by calls; schedules enumerated '
         'exhaustively by DFS with replay under a preemption bound (line granularity inside supp/remote.py), plus Hypothesis '
         'schedules without bound. Invariant: exactly one launch per session (launches - closes <= 1 at all times), no '
         'operation raises, every call returns the reply to its own request, no deadlock. Real-subprocess runs: close, reuse '
@@ -67,6 +68,8 @@ def run_schedule(schedule, scenario):
         if scenario.get('second'):
             phases.append(['X'])
             phases.append(list(scenario['second']))
+        if scenario.get('then'):
+            phases.append(list(scenario['then']))
         results = []
         for pi, ops in enumerate(phases):
             tids = []
@@ -95,7 +98,12 @@ def run_schedule(schedule, scenario):
         sessions = 1 + (1 if scenario.get('second') else 0)
         if s.max_live > 1:
             return s, ('two-servers-alive', 'launches=%d closes=%d' % (s.launches, s.closes))
-        if s.launches != sessions and not (scenario.get('fail_first') and s.launches <= 1):
+        if 'X' in scenario['ops']:
+            # close() racing with prepare(): it either finds no connection yet (no-op) or ends that server; afterwards
+            # the calls of the last phase must be served by exactly one live server
+            if s.launches - s.closes != 1:
+                return s, ('live-servers-after-racing-close', 'launches=%d closes=%d after the final calls were answered' % (s.launches, s.closes))
+        elif s.launches != sessions and not (scenario.get('fail_first') and s.launches <= 1):
             return s, ('launch-count', '%d launches for %d session(s)' % (s.launches, sessions))
         for tid, op in results:
             if op in CALLS and tid == getattr(s, 'failed_in', None):
@@ -165,6 +173,10 @@ def scenarios():
     for b in ('PA', 'PAB', 'PPA'):
         out.append({'ops': b, 'pre': False, 'second': '', 'fail_first': True})
     out.append({'ops': 'A', 'pre': True, 'second': '', 'fail_first': True})
+    # close() concurrent with background pre-start requests (no call in flight), then calls
+    out.append({'ops': 'PX', 'pre': False, 'second': '', 'then': 'A'})
+    out.append({'ops': 'PPX', 'pre': False, 'second': '', 'then': 'AB'})
+    out.append({'ops': 'PX', 'pre': True, 'second': '', 'then': 'AB'})
     return out
 
 
